@@ -86,6 +86,9 @@ def retain {α : Type} (l : List α) (p : α → Bool) : List α := l.filter p
 /-- `HashMap::insert(key, entry)` (replaces) -/
 def mapInsert (m : Store K V) (k : K) (e : Entry V) : Store K V := put k e m
 
+/-- writing through the `&mut` entry that `HashMap::get_mut(key)` returned -/
+def mapSet (m : Store K V) (k : K) (e : Entry V) : Store K V := modify k (fun _ => e) m
+
 /-- the entry tuple `(value, unix seconds, frequency)` of the async cache; the model keeps births in ms -/
 def asyncEntry (v : V) (ts : Nat) (freq : Nat) : Entry V := ⟨v, ts * 1000, freq⟩
 
@@ -139,6 +142,12 @@ def F64.float : F64 Float where
   gt := fun a b => a > b
   ge := fun a b => a ≥ b
 
+/-- `CacheStats { hits: AtomicU64, misses: AtomicU64 }` -/
+structure StatsCell where
+  hits : Nat
+  misses : Nat
+  deriving Repr, DecidableEq
+
 /-! ### time -/
 
 /-- the clock as the sync engines see it: `inserted_at.elapsed()` of an entry, in ms -/
@@ -161,6 +170,7 @@ structure GlobalCache (K V F : Type) where
   policy : Policy
   ttl : Option Nat
   frequency_weight : Option F
+  stats : StatsCell := ⟨0, 0⟩
 
 /-- `AsyncGlobalCache`: the DashMap, the order queue behind its mutex, and the configuration -/
 structure AsyncCache (K V F : Type) where
@@ -176,12 +186,6 @@ structure AsyncCache (K V F : Type) where
 def asSecs (ms : Nat) : Nat := ms / 1000
 
 /-! ### atomics (one method call = one atomic step; `Ordering` is not modelled) -/
-
-/-- `CacheStats { hits: AtomicU64, misses: AtomicU64 }` -/
-structure StatsCell where
-  hits : Nat
-  misses : Nat
-  deriving Repr, DecidableEq
 
 def fetchAdd (cell : Nat) (d : Nat) (_ord : Unit) : Nat × Nat := (cell, cell + d)
 def atomicStore (_cell : Nat) (v : Nat) (_ord : Unit) : Nat := v
